@@ -24,7 +24,9 @@ def step (j : Json) : Option String := do
     | [d, c] => pure (← jNat d, ← jBytes c)
     | _ => none
   let writes ← (← fArr j "writes").mapM jBytes
+  let drain ← fNat j "drain"
   let s0 := init ta0 rr0 in0 initWait txDelays rxPlan
-  pure (" | ".intercalate ((trace s0 writes).map showObs))
+  let s1 := (final s0 writes).drain
+  pure (" | ".intercalate ((trace s0 writes ++ trace s1 (idle drain)).map showObs))
 
 def main : IO Unit := driverMain step
